@@ -34,13 +34,7 @@ func H_C18_valid(t *verifrt.T) {
 	got := Valid(src)
 	t.ObserveBool("valid", got)
 	strict := verifref.ValidJSON(orig, verifref.Relax{})
-	num := verifref.ValidJSON(orig, verifref.Relax{NumberGo: true})
-	ctrl := verifref.ValidJSON(orig, verifref.Relax{CtrlInString: true})
-	lax := verifref.ValidJSON(orig, verifref.Relax{NumberGo: true, CtrlInString: true})
-	and := verifrt.And
-	t.Known("D33-valid-inherits-decoder-number-leniency", and(got, !strict, num))
-	t.Known("D34-valid-inherits-decoder-control-character-leniency", and(got, !strict, ctrl))
-	t.Assert("valid-reports-true-only-for-listed-language", verifrt.Implies(got, lax))
+	t.Assert("valid-reports-true-only-for-valid-json", verifrt.Implies(got, strict))
 	t.Assert("valid-json-reported-valid", verifrt.Implies(strict, got))
 	t.Assert("source-unchanged", verifref.BytesEq(src, orig))
 	t.Cover("some-valid", got)
@@ -70,10 +64,7 @@ func H_C18_htmlescape(t *verifrt.T) {
 	}
 	added := got[pre:]
 	if !strict {
-		lax := verifref.ValidJSON(orig, verifref.Relax{NumberGo: true, CtrlInString: true})
-		t.Known("D33-valid-inherits-decoder-number-leniency", verifrt.And(len(added) > 0, verifref.ValidJSON(orig, verifref.Relax{NumberGo: true})))
-		t.Known("D34-valid-inherits-decoder-control-character-leniency", verifrt.And(len(added) > 0, verifref.ValidJSON(orig, verifref.Relax{CtrlInString: true})))
-		t.Assert("invalid-text-leaves-destination", verifrt.Or(len(added) == 0, lax))
+		t.Assert("invalid-text-leaves-destination", len(added) == 0)
 		return
 	}
 	raw := false
@@ -91,5 +82,7 @@ func H_C18_htmlescape(t *verifrt.T) {
 	// equivalence: both texts have the same canonical re-encoding (strings
 	// compared by decoded value, numbers by literal, structure by token)
 	t.Assert("output-equivalent-to-source", verifref.BytesEq(verifref.RefCanon(added, true), verifref.RefCanon(orig, true)))
+	// and, like encoding/json, every string, number and member stays as written
+	t.Assert("output-is-the-escaped-compaction", verifref.BytesEq(added, verifref.RefCompact(orig, true)))
 	t.Cover("escaped-some-valid", true)
 }
